@@ -345,6 +345,8 @@ class FactoryRun:
             if e.op in ("rp", "rg"):
                 es = self.edge_spec[e.edge]
                 node = es["src"] if e.op == "rp" else es["dst"]
+                if e.proc is not None and e.proc in getattr(self, "intruder_procs", ()):
+                    node = "<user process>"      # a request of a user-written process sharing the edge, not of the node
                 ti = TokInfo(e.tok, "p" if e.op == "rp" else "g", e.edge, e.t, e.k, e.proc, node)
                 self.toks[id(e.tok)] = ti
                 if e.tok.triggered:
@@ -430,6 +432,28 @@ class FactoryRun:
         for nid, node in self.nodes.items():
             if self.node_spec[nid]["type"] == "Router":
                 node.start_processes()
+        self.start_intruders()
+
+    def start_intruders(self):
+        """user-written SimPy processes that share an edge with a library node through the documented edge API (as
+        tests/test_machine.py does): each asks for space on the edge, holds the granted place for a while and gives it back
+        without putting anything.  They bring no items, so every conservation / counter oracle is untouched; their requests are
+        booked under the pseudo node '<user process>'."""
+        self.intruder_procs = set()
+        for sp in self.spec.get("intruders") or []:
+            edge = self.edges.get(sp["edge"])
+            if edge is None:
+                continue
+            self.intruder_procs.add(self.env.process(self._intruder(edge, sp)))
+
+    def _intruder(self, edge, sp):
+        env = self.env
+        for w, h in zip(sp["waits"], sp["holds"]):
+            yield env.timeout(w)
+            tok = edge.reserve_put()
+            yield tok
+            yield env.timeout(h)
+            edge.reserve_put_cancel(tok)
 
     # ------------------------------------------------------------------ public state helpers
     def edge_items(self, eid):
